@@ -96,7 +96,15 @@ def implicit_solves(rep, tier, timeout):
         # symmetric K is a premise of the reverse mode: re-stated here (proved in C10 too)
         obs = [oblig.Ob("K[%d,%d] == K[%d,%d]" % (i, j, j, i), lhs=Kc[i, j], rhs=Kc[j, i], meta={"family": "stiffness matrix is symmetric (premise of reusing the untransposed LU in reverse mode)"})
                for i in range(n) for j in range(i + 1, n)]
-        run_obligations(rep, "K symmetric [%s]" % cn, obs, timeout, family=lambda ob: "FEM: " + ob.meta["family"])
+        def rp_sym(ob, env, ch=ch, ny=ny):
+            # the real chain on floats: assembled K against its transpose
+            rng_ = np.random.default_rng(3)
+            nd = np.stack([0.3 * np.arange(ny), -1.0 * np.arange(ny)[::-1], 0.1 * np.arange(ny)], axis=1).astype(float)
+            Kn = np.asarray(ch.real_K(nd, *[v_ * (1.0 + rng_.random(ny - 1)) for v_ in (1e-3, 1e-6, 2e-6, 3e-6)]), dtype=float)
+            d = float(np.abs(Kn - Kn.T).max())
+            return d > 1e-9 * max(1.0, float(np.abs(Kn).max())), "max |K - K^T| = %.3g (max |K| = %.3g)" % (d, float(np.abs(Kn).max()))
+
+        run_obligations(rep, "K symmetric [%s]" % cn, obs, timeout, family=lambda ob: "FEM: " + ob.meta["family"], replay=rp_sym)
     # ------------------------------------------------------------------ SolveMatrix
     for ss in ([[K.surface(2, 3, False)]] + ([[K.surface(2, 2, True), K.surface(2, 3, False, name="tail")]] if tier == "thorough" else [])):
         sm = SymComp("aerodynamics.solve_matrix", "SolveMatrix", surfaces=ss)
